@@ -107,6 +107,9 @@ func (sf ScrubFields) clean(payload map[string]interface{}, path []string, field
 			if vv, ok := x.(map[string]interface{}); ok {
 				toCleanParent := sf.clean(vv, path[1:], fields)
 				removeParent = removeParent && toCleanParent
+			} else {
+				// a null entry has nothing to scrub and is part of the answer: the list stays
+				removeParent = false
 			}
 		}
 		if len(v) == 0 {
